@@ -573,7 +573,7 @@ def mpint_pipeline(ctx, report, rule='C11.R6', signs=(1, -1), quiet_fallback=Fal
             report.error('%s: %s.%s vanished' % (rule, c.name, n))
             return
         report.touch(c.methods[n])
-    cf, pf = cb.methods['compose_ssh_mpint'], pb.methods['parse_ssh_mpint']
+    cf, pf = cb.resolve('compose_ssh_mpint'), pb.resolve('parse_ssh_mpint')
     bad_c = bad_p = 0
     samples = mpint_samples(ctx.thorough)
     for v in samples:
@@ -641,7 +641,7 @@ def fixed_mpint(ctx, report, cb, pb, rule, negatives=True):
     if 'compose_mpint' not in cb.methods or 'parse_mpint' not in pb.methods:
         report.error('%s: compose_mpint / parse_mpint vanished' % rule)
         return
-    cf, pf = cb.methods['compose_mpint'], pb.methods['parse_mpint']
+    cf, pf = cb.resolve('compose_mpint'), pb.resolve('parse_mpint')
     report.touch(cf)
     report.touch(pf)
     bits = list(range(1, 4130)) if ctx.thorough else list(range(1, 80)) + [127, 128, 129, 1023, 1024, 1025, 2047, 2048, 2049, 4095, 4096]
